@@ -6,6 +6,7 @@
 package c16
 
 import (
+	"math/big"
 	evmtypes "github.com/tharsis/ethermint/x/evm/types"
 	ibcexported "github.com/cosmos/ibc-go/v3/modules/core/exported"
 	paramproposal "github.com/cosmos/cosmos-sdk/x/params/types/proposal"
@@ -144,6 +145,26 @@ func Run(r *ev.Run, tier string) (evals, nontrivial int64) {
 			ep.EnableCall = false
 			c.App.EvmKeeper.SetParams(ctx, ep)
 		})},
+		{"pair enabled: voucher added to an externally owned ERC-20 whose tokens the module holds in escrow", mk(func(ctx sdk.Context) {
+			// the voucher exists; a third-party token is registered; u1 converts 50 tokens (escrowed by the module), then governance
+			// adds the voucher to that pair: a received voucher is then *burned* and the receiver gets escrowed tokens
+			if ack := inner.OnRecvPacket(ctx, mkPacket(packetCase{"uatom", "5", "valid"}, 1), c.Accounts["rel"].Acc); !ack.Success() {
+				panic("setup receive failed")
+			}
+			tok := world.DeployERC20From(c, ctx, u1.Eth, "ext")
+			world.KeeperCall(c, ctx, erc20ABI(), u1.Eth, tok, "mint", u1.Eth, big.NewInt(1000))
+			if _, err := c.App.AggregateKeeper.RegisterERC20(ctx, tok); err != nil {
+				panic(err)
+			}
+			if _, err := c.App.AggregateKeeper.ConvertERC20(sdk.WrapSDKContext(ctx), aggregatetypes.NewMsgConvertERC20(sdk.NewInt(50), u1.Acc, tok, u1.Eth, aggregatetypes.CreateDenom(tok.Hex()))); err != nil {
+				panic(err)
+			}
+			m := c13.Meta(voucher, "uatom channel-0")
+			m.Symbol = "ibcATOM"
+			if _, err := c.App.AggregateKeeper.AddCoin(ctx, m, tok.Hex()); err != nil {
+				panic(err)
+			}
+		})},
 		{"pair disabled", mk(func(ctx sdk.Context) {
 			register(ctx)
 			if _, err := c.App.AggregateKeeper.ToggleRelay(ctx, voucher); err != nil {
@@ -173,6 +194,8 @@ func Run(r *ev.Run, tier string) (evals, nontrivial int64) {
 			out["u1/"+d] = c.App.BankKeeper.GetBalance(ctx, who, d).Amount.String()
 			out["module/"+d] = c.App.BankKeeper.GetBalance(ctx, authtypes.NewModuleAddress(aggregatetypes.ModuleName), d).Amount.String()
 		}
+		out["supply/"+voucher] = c.App.BankKeeper.GetSupply(ctx, voucher).Amount.String()
+		out["collector/"+voucher] = c.App.BankKeeper.GetBalance(ctx, authtypes.NewModuleAddress(authtypes.FeeCollectorName), voucher).Amount.String()
 		out["erc20/u1"] = "0"
 		if id := c.App.AggregateKeeper.GetDenomMap(ctx, voucher); len(id) > 0 {
 			if p, ok := c.App.AggregateKeeper.GetTokenPair(ctx, id); ok {
@@ -262,7 +285,16 @@ func Run(r *ev.Run, tier string) (evals, nontrivial int64) {
 				dV := diffInt(beforeM["u1/"+voucher], afterM["u1/"+voucher])
 				dE := diffInt(beforeM["erc20/u1"], afterM["erc20/u1"])
 				dM := diffInt(beforeM["module/"+voucher], afterM["module/"+voucher])
-				converted := dE.Equal(amt) && dM.Equal(amt) && dV.IsZero()
+				dS := diffInt(beforeM["supply/"+voucher], afterM["supply/"+voucher])
+				dC := diffInt(beforeM["collector/"+voucher], afterM["collector/"+voucher])
+				// module-owned pair: the vouchers are escrowed; externally owned token: the vouchers are burned (supply back to what it was)
+				converted := dE.Equal(amt) && dM.Equal(amt) && dV.IsZero() && dS.Equal(amt)
+				if strings.Contains(stName, "externally owned") {
+					converted = dE.Equal(amt) && dM.IsZero() && dV.IsZero() && dS.IsZero()
+				}
+				if !dC.IsZero() {
+					r.Violation("C16:received-vouchers-leaked-to-the-fee-collector", fmt.Sprintf("state %q, packet %s: fee collector vouchers %+v", stName, pc, dC), map[string]interface{}{"engine": "c16", "case": desc})
+				}
 				untouched := dV.Equal(amt) && dE.IsZero() && dM.IsZero()
 				switch {
 				case converted:
